@@ -151,6 +151,29 @@ def step (st : State) : Op → State × Out
     | none => (st, .listing false false [])
     | some p => (st, .listing true p.dynamic (p.clauses.map (·.raw)))
 
+/-- retractall/1: remove every clause that a retract of `Head :- _` started now would remove -/
+def drain : Nat → State → Nat → State × Out
+  | 0, st, _ => (st, .badHandle)
+  | fuel + 1, st, h =>
+    match step st (.next h) with
+    | (st', .answer _) => drain fuel st' h
+    | r => r
+
+def retractall (fuel : Nat) (st : State) (head : Term) : State × Out :=
+  match step st (.openRetract (.a2 ":-" head (.var (maxVar head)))) with
+  | (st1, .opened h) =>
+    match drain fuel st1 h with
+    | (st2, .no) => (st2, .ok)
+    | r => r
+  | r => r
+
+/-- the clauses of a list that do NOT unify (renamed apart, variable counter threaded) with a pattern -/
+def survivors (pat : Term) : Nat → List Stored → List Stored
+  | _, [] => []
+  | nv, c :: cs =>
+    if (unify fuelU [] (rulify pat) (rulify (shift nv c.raw))).isSome then survivors pat (nv + maxVar c.raw) cs
+    else c :: survivors pat (nv + maxVar c.raw) cs
+
 def run : State → List Op → State × List Out
   | st, [] => (st, [])
   | st, o :: os =>
